@@ -23,13 +23,35 @@ def parse_ob(name, n, prefix="", flags=None, extra=(), timeout=900, mem=6, desc=
     return dict(name=name, harness="C28_uri.c", entry="harness_parse", defines=d, unwind=L + 3, unwindset=us,
                 cbmc=["--object-bits", "10"], solver=solver, timeout=timeout, mem_gb=mem, desc=desc)
 
+def setters_ob(name, ks=1, ku=1, kh=2, kx=-1, kp=3, kq=1, kf=1, flags=None, extra=(), timeout=900, mem=6, desc="", solver="cadical"):
+    pos = lambda k: max(k, 0)
+    J = pos(ks) + pos(ku) + pos(kh) + pos(kx) + pos(kp) + pos(kq) + pos(kf) + 22
+    B = J + 2
+    d = ["VP_KS=%d" % ks, "VP_KU=%d" % ku, "VP_KH=%d" % kh, "VP_KX=%d" % kx, "VP_KP=%d" % kp, "VP_KQ=%d" % kq, "VP_KF=%d" % kf,
+         "VP_N=%d" % J, "VP_STR_OBJ=%d" % (J + 2), "VP_BYTES_MAX=%d" % B, "VP_EVP_MAX=%d" % 24] + list(extra)
+    if flags is not None: d.append("VP_FLAGS=%d" % flags)
+    us = ["vpb_init.0:%d" % (2 * B + 1), "vpb_append.0:%d" % (2 * B + 1), "evbuffer_remove.0:%d" % (B + 1),
+          "vp_opt_streq.0:%d" % (2 * J + 5), "vp_evp_num.0:7", "vp_evp_num.1:7", "vp_evp_num.2:7", "strchr.0:%d" % max(J + 2, 13),
+          "vp_component.0:9", "evbuffer_add_vprintf.0:8", "evbuffer_add_vprintf.1:4", "evbuffer_add_vprintf.2:%d" % (J + 2)]
+    return dict(name=name, harness="C28_uri.c", entry="harness_setters", defines=d, unwind=J + 3, unwindset=us,
+                cbmc=["--object-bits", "10"], solver=solver, timeout=timeout, mem_gb=mem, desc=desc)
+
 def obligations(tier):
-    n = 6 if tier == "quick" else 8
-    RT = ["VP_ONLY_ROUNDTRIP"]
-    obs = [parse_ob("split_any", n, extra=["VP_ONLY_SPLIT"], desc="RFC 3986 components: any string <= %d bytes, all 8 flag combinations" % n),
-           parse_ob("rt_any", n - 1, extra=RT, desc="parse-join-parse: any string <= %d bytes, all 8 flag combinations" % (n - 1)),
-           parse_ob("rt_auth", n - 1, prefix="//", extra=RT + ["VP_WIT_PORT"], desc="parse-join-parse: '//' + any string <= %d bytes, all 8 flag combinations" % (n - 1)),
-           parse_ob("split_auth", n, prefix="//", extra=["VP_ONLY_SPLIT"], desc="RFC 3986 components: '//' + any string <= %d bytes, all 8 flag combinations" % n),
-           parse_ob("unix", 4, prefix="//unix:", flags=8, extra=["VP_WIT_UNIX"], desc="'//unix:' + any string <= 4 bytes, UNIX_SOCKET"),
+    q = tier == "quick"
+    RT, SP = ["VP_ONLY_ROUNDTRIP"], ["VP_ONLY_SPLIT"]
+    ns, nr, na, nu = (6, 4, 4, 3) if q else (8, 7, 7, 6)
+    T = 900 if q else 2400
+    obs = [
+        parse_ob("split_any", ns, extra=SP + ["VP_WIT_SCHEME"], timeout=T,
+                 desc="RFC 3986 components + completeness: any string <= %d bytes, all 8 flag combinations" % ns),
+        parse_ob("split_auth", ns, prefix="//", extra=SP + ["VP_WIT_PORT", "VP_WIT_V6"], timeout=T,
+                 desc="RFC 3986 components + completeness: '//' + any string <= %d bytes, all 8 flag combinations" % ns),
+        parse_ob("rt_any", nr, extra=RT + ["VP_WIT_SCHEME"], timeout=T,
+                 desc="parse-join-parse: any string <= %d bytes, all 8 flag combinations" % nr),
+        parse_ob("rt_auth", na, prefix="//", extra=RT + ["VP_WIT_PORT"], timeout=T,
+                 desc="parse-join-parse: '//' + any string <= %d bytes, all 8 flag combinations" % na),
+        parse_ob("unix", nu, prefix="//unix:", flags=8, extra=["VP_WIT_UNIX"], timeout=T,
+                 desc="components + parse-join-parse: '//unix:' + any string <= %d bytes, UNIX_SOCKET" % nu),
+        setters_ob("setters", timeout=T, desc="setters then join: scheme<=1 userinfo<=1 host<=2 path<=3 query<=1 fragment<=1 bytes, any port in [-2,70000], all flags"),
     ]
     return obs
